@@ -11,6 +11,7 @@ import GapicModel.Driver.C09
 import GapicModel.Driver.C10
 import GapicModel.Driver.C11
 import GapicModel.Driver.C12
+import GapicModel.Driver.C13
 import GapicModel.Driver.C14
 import GapicModel.Driver.C15
 import GapicModel.Driver.C16
@@ -30,7 +31,7 @@ open Lean GapicModel
 namespace GapicModel.Driver
 
 def allOps : List (String × (Json → Except String Json)) :=
-  [("regex", opRegex)] ++ opsC01 ++ opsC02 ++ opsC03 ++ opsC04 ++ opsC05 ++ opsC06 ++ opsC07 ++ opsC08 ++ opsC09 ++ opsC10 ++ opsC11 ++ opsC12 ++ opsC14 ++ opsC15 ++ opsC16 ++ opsC17 ++ opsC18 ++ opsC19 ++ opsC20
+  [("regex", opRegex)] ++ opsC01 ++ opsC02 ++ opsC03 ++ opsC04 ++ opsC05 ++ opsC06 ++ opsC07 ++ opsC08 ++ opsC09 ++ opsC10 ++ opsC11 ++ opsC12 ++ opsC13 ++ opsC14 ++ opsC15 ++ opsC16 ++ opsC17 ++ opsC18 ++ opsC19 ++ opsC20
 
 def dispatch (j : Json) : Except String Json := do
   let op ← (← j.getObjVal? "op").getStr?
